@@ -367,34 +367,39 @@ class _EvaluatorCompiler:
         )
 
     @staticmethod
-    def _like_pattern_to_regex(pattern, escape):
-        # the operand of startswith() / endswith() is part of a LIKE
-        # pattern: "%" and "_" are wildcards unless preceded by the
-        # escape character
+    def _like_match(pattern, escape, value):
+        # translate a complete LIKE pattern: "%" and "_" are wildcards
+        # unless preceded by the escape character.  The operand of
+        # startswith() / endswith() is concatenated with "%" *before* the
+        # pattern is interpreted, so an operand ending in the escape
+        # character escapes that "%"; a pattern ending in a dangling escape
+        # character matches nothing.
         result = []
         chars = iter(pattern)
         for char in chars:
             if escape and char == escape:
-                result.append(re.escape(next(chars, "")))
+                escaped = next(chars, None)
+                if escaped is None:
+                    return False
+                result.append(re.escape(escaped))
             elif char == "%":
                 result.append(".*")
             elif char == "_":
                 result.append(".")
             else:
                 result.append(re.escape(char))
-        return "".join(result)
+        return re.fullmatch("".join(result), value, re.DOTALL) is not None
 
     def visit_startswith_op_binary_op(
         self, operator, eval_left, eval_right, clause
     ):
         escape = clause.modifiers.get("escape")
 
-        def startswith(a, b):
-            regex = self._like_pattern_to_regex(b, escape)
-            return re.match(regex, a, re.DOTALL) is not None
-
         return self._straight_evaluate(
-            startswith, eval_left, eval_right, clause
+            lambda a, b: self._like_match(b + "%", escape, a),
+            eval_left,
+            eval_right,
+            clause,
         )
 
     def visit_endswith_op_binary_op(
@@ -402,11 +407,12 @@ class _EvaluatorCompiler:
     ):
         escape = clause.modifiers.get("escape")
 
-        def endswith(a, b):
-            regex = self._like_pattern_to_regex(b, escape)
-            return re.search(f"(?:{regex})\\Z", a, re.DOTALL) is not None
-
-        return self._straight_evaluate(endswith, eval_left, eval_right, clause)
+        return self._straight_evaluate(
+            lambda a, b: self._like_match("%" + b, escape, a),
+            eval_left,
+            eval_right,
+            clause,
+        )
 
     def visit_unary(self, clause):
         eval_inner = self.process(clause.element)
